@@ -319,6 +319,19 @@ def bv_cmp_items(ctx):
     return it
 GROUPS["bv_cmp"] = dict(name="bv_cmp", features="#![feature(allocator_api)]", prelude=bv_cmp_prelude, items=bv_cmp_items)
 
+GROUPS["bvf_mul"] = dict(name="bvf_mul",
+    prelude=lambda ctx: WORD_PRELUDE + ["conv_std.rs"] + VALUE_PRELUDE + ["value_mul.rs", "bvf.rs", "bvf_val.rs"] + rhs_bvf_prelude(dict(ctx, SGN="+")) + ["bvf_mul.rs"],
+    items=lambda ctx: BVF_BASE + rhs_bvf_items(ctx) + ([("stub", "bvf.int_len", {"J": "{I}", "Y": ""}), ("stub", "slice.int_len", {"J": "{I}", "Y": ""})] if ctx["I"] != ctx["J"] else []) + stub(BVF_CORE) + verify(["bvf.mul_bvf"]))
+GROUPS["bvf_mul_bvd"] = dict(name="bvf_mul_bvd", features="#![feature(allocator_api)]",
+    prelude=lambda ctx: WORD_PRELUDE + ["conv_std.rs"] + VALUE_PRELUDE + ["value_mul.rs", "bvf.rs", "bvf_val.rs"] + rhs_bvd_val_prelude(dict(ctx, SGN="+")) + ["bvf_mul.rs"],
+    items=lambda ctx: BVF_BASE + rhs_bvd_items(ctx) + [("stub", "bvf.int_len", {"J": "{I}", "Y": ""})] + ([("stub", "slice.int_len", {"J": "{I}", "Y": ""})] if ctx["I"] != "u64" else []) + stub(BVF_CORE) + verify(["bvf.mul_bvd"]))
+GROUPS["bvd_mul"] = G("bvd_mul", BVD_VAL_PRELUDE + ["value_mul.rs", "cmp_words.rs", "bvd_cmp.rs", "bvd_mul.rs"], BVD_BASE + stub(BVD_CORE) + verify(["bvd.mul_bvd"]))
+GROUPS["bvd_mul"]["features"] = "#![feature(allocator_api)]"
+GROUPS["bvd_mul_bvf"] = dict(name="bvd_mul_bvf", features="#![feature(allocator_api)]",
+    prelude=lambda ctx: BVD_VAL_PRELUDE + ["value_mul.rs"] + src_bvf_prelude(dict(ctx, SGN="+")) + ["bvd_mul.rs"],
+    items=lambda ctx: BVD_BASE + src_bvf_items(ctx) + [("stub", "bvd.int_len", {"J": "u64", "Y": ""})] + stub(BVD_CORE) + verify(["bvd.mul_bvf"]))
+GROUPS["mul_theory"] = dict(name="mul_theory", prelude=lambda ctx: WORD_PRELUDE + VALUE_PRELUDE + ["value_mul.rs"], items=lambda ctx: [("decl", "decl.Bit")])
+
 def cmp_prelude(ctx):
     """self: Bvf<I,_>, other: Bvf<J,_>, both read in chunks of J"""
     p = WORD_PRELUDE + ["conv_std.rs"] + VALUE_PRELUDE + ["bvf.rs", "bvf_val.rs", "iarray.rs"]
@@ -494,6 +507,10 @@ def cmp_more_jobs(ws):
             [("bvf_cmp_fwd", dctx(i)) for i in ws] + [("bv_cmp", pair("u64", j)) for j in ws])
 PROPS["C09"]["quick"] += cmp_more_jobs(WQ)
 PROPS["C09"]["thorough"] += cmp_more_jobs(W4)
+def mul_jobs(pairs, ws):
+    return ([("bvf_mul", pair(i, j)) for (i, j) in pairs] + [("bvf_mul_bvd", dctx(i)) for i in ws] + [("bvd_mul", U64)] + [("bvd_mul_bvf", pair("u64", j)) for j in ws])
+PROPS["C01"]["quick"] += mul_jobs(PQ, WQ)
+PROPS["C01"]["thorough"] += mul_jobs(PT, W4)
 BVD_ARITH_JOBS = [("bvd_arith", dict(U64, **ARITH_D[o])) for o in ("add", "sub")]
 PROPS["C01"]["quick"] += BVD_ARITH_JOBS
 PROPS["C01"]["thorough"] += BVD_ARITH_JOBS
@@ -597,7 +614,7 @@ dyn_only("C20", "every owned/borrowed/assign form of + - * / % & | ^ << >> ! and
 MANIFEST_TEXT["C01"] = dict(
     text=("Proof (add/sub): the real bodies of AddAssign/SubAssign<&Bvf<I2,N2>> for Bvf<I1,N1> (both the same-word-size branch and the re-chunking branch through get_int) are verified against the VALUE-level contract "
           "val(result) == (val(a) +/- val(b)) mod 2^len, len unchanged, storage beyond len zero, on top of verified contracts of the word primitives cadd/csub/wmul/mask and of the carry-chain/bridge lemmas (spec/prelude/value*.rs)." + DYN_NOTE),
-    note=(COVER_BVF.replace("and the Bvd implementation (symbolic word count, spare capacity included), ", "") + "Also verified: Bvd += / -= &Bvd (two-step overflowing_add/sub carry chain, symbolic word count, spare capacity), Bvf += / -= &Bvd and Bvd += / -= &Bvf (operand re-chunked through get_int). Bv += / -= &Bvf/&Bvd/&Bv (dispatch on both operands) are verified too. Not yet under contract: multiplication, native right operands, by-value forwarders (covered only by the second engine). " + TRUST_NOTE))
+    note=(COVER_BVF.replace("and the Bvd implementation (symbolic word count, spare capacity included), ", "") + "Also verified: Bvd += / -= &Bvd (two-step overflowing_add/sub carry chain, symbolic word count, spare capacity), Bvf += / -= &Bvd and Bvd += / -= &Bvf (operand re-chunked through get_int). Bv += / -= &Bvf/&Bvd/&Bv (dispatch on both operands) are verified too. MULTIPLICATION: the four schoolbook bodies (&Bvf*&Bvf any two word sizes, &Bvf*&Bvd, &Bvd*&Bvd, &Bvd*&Bvf) are verified against val(r) == (val(a)*val(b)) mod 2^len with a row/column invariant over exact integer equations (spec/prelude/value_mul.rs; the carry never overflows). Not yet under contract: native right operands, by-value / assigning forwarders of * (covered only by the second engine). " + TRUST_NOTE))
 MANIFEST_TEXT["C04"] = dict(
     text=("Proof: BitAnd/BitOr/BitXorAssign<&Bvf<I2,N2>> for Bvf<I1,N1> (both branches), the same three for Bvd with a &Bvd operand, Not for Bvf/&Bvf/Bvd are verified against the bit-by-bit contract with the right operand zero-extended and ignored beyond len; wf of the result is the 'no bit of b at index >= n influences later observations' clause." + DYN_NOTE),
     note=(COVER_BVF + "Also verified: Bvf op= &Bvd and Bvd op= &Bvf (operand read in chunks of the left word type through get_int). Bv op= &Bvf/&Bvd/&Bv and !Bv (dispatch) are verified too. Not yet under contract: native right operands, Not for &Bvd/&Bv, by-value forwarders (covered only by the second engine). " + TRUST_NOTE))
